@@ -21,6 +21,9 @@ type tailExtra struct {
 	Limit   *int64   `json:"limit"`
 }
 
+// forceTwoKeys: every statement groups by two keys and (mostly) orders by a prefix of the GROUP BY list (mode e2etailg)
+var forceTwoKeys = false
+
 func genE2ETail(r *rand.Rand) e2eCase {
 	ctx := context.Background()
 	c := e2eCase{Mode: "e2etail"}
@@ -39,7 +42,7 @@ func genE2ETail(r *rand.Rand) e2eCase {
 	ex := tailExtra{}
 	var outs []string
 	where, baseSel := `{?s "w"@[] ?x}`, "?s, ?x"
-	if r.Intn(10) < 3 {
+	if r.Intn(10) < 3 || forceTwoKeys {
 		// two grouping keys whose values interleave (type and id of the subject); the SELECT list, the GROUP BY list and
 		// the ORDER BY list name them in INDEPENDENT orders and directions
 		c.Shape = "grouped-two"
@@ -108,7 +111,7 @@ func genE2ETail(r *rand.Rand) e2eCase {
 	if len(ex.GroupBy) > 0 {
 		q += " GROUP BY " + strings.Join(ex.GroupBy, ", ")
 	}
-	if c.Shape == "grouped-two" && r.Intn(2) == 0 {
+	if c.Shape == "grouped-two" && (r.Intn(2) == 0 || (forceTwoKeys && r.Intn(3) != 0)) {
 		// ORDER BY = a prefix of the GROUP BY list (mostly ascending): what an "already sorted by Reduce" shortcut would look for
 		n := 1 + r.Intn(2)
 		for _, g := range ex.GroupBy[:n] {
